@@ -50,6 +50,8 @@ ENCODED = [
     "menelaus.change_detection.adwin:ADWIN.update",
     "menelaus.concept_drift.ddm:DDM.update", "menelaus.concept_drift.eddm:EDDM.update", "menelaus.concept_drift.stepd:STEPD.update",
     "menelaus.concept_drift.lfr:LinearFourRates.update", "menelaus.concept_drift.adwin_accuracy:ADWINAccuracy.update",
+    "menelaus.ensemble.ensemble:Ensemble.update", "menelaus.ensemble.ensemble:StreamingEnsemble.update",
+    "menelaus.ensemble.ensemble:BatchEnsemble.update", "menelaus.ensemble.ensemble:BatchEnsemble.set_reference",
     "menelaus.injection.injector:Injector._preprocess", "menelaus.injection.injector:Injector._postprocess",
     "menelaus.injection.feature_manipulation:FeatureShiftInjector.__call__",
     "menelaus.injection.feature_manipulation:FeatureSwapInjector.__call__",
@@ -64,12 +66,13 @@ BOUNDS = {
              "for kdq w=1/PCACD w=2, N<=burn_in+4 for CUSUM / Page-Hinkley, N<=6 ADWIN, N<=5 label detectors), containers "
              "{C array, Fortran array, strided view, DataFrame} (+ list, 1-D array, Series for one-variable inputs and labels), "
              "caller overwrite after one call position p (every p) or after every call; batches of 2 rows x 1-2 columns (HDM: 4-5 "
-             "placeholder rows); injectors on 3 rows x 3 columns, every window",
+             "placeholder rows); BatchEnsemble (KdqTreeBatch x2 + NNDVI) and StreamingEnsemble (CUSUM x2 + KdqTreeStreaming) with "
+             "view-returning column selectors, N<=3/4; injectors on 3 rows x 3 columns, every window, fresh and re-used instances",
     "thorough": "longer histories (N+2), kdq w=2, PCACD w=4, 3-row batches",
 }
 OUTSIDE = ("containers other than the listed kinds (multi-block / mixed-dtype DataFrames, masked or structured arrays, read-only "
-           "buffers); view/copy behaviour of numpy/pandas operations for dtypes other than float64/object; MD3 and the ensembles "
-           "(they hand their inputs to the member detectors / classifier covered here); FeatureCoverInjector (pandas "
+           "buffers); view/copy behaviour of numpy/pandas operations for dtypes other than float64/object; MD3 (its reference frame and "
+           "oracle rows go through pandas label indexing and sklearn); FeatureCoverInjector (pandas "
            "groupby.sample); histories longer than the bounds")
 ASSUMPTIONS = [
     "numeric library results (kdq divergence and critical value, HDM per-feature distances and bootstrap epsilon, NN-DVI "
@@ -341,6 +344,97 @@ def body_detector(ctx, det, N, cfg, kind, overwrite_at, setref=True):
 
 
 # --------------------------------------------------------------------------
+# ensembles: the ensemble hands the caller's object (or what a column selector makes of it - here views of it) on to
+# its members; the same non-interference must hold for the ensemble as a whole
+
+
+def _select(j):
+    """a column selector that returns a *view* of the caller's data where the container allows one"""
+    def sel(data):
+        if isinstance(data, pd.DataFrame):
+            return data[[data.columns[j]]]
+        a = data if isinstance(data, np.ndarray) else np.asarray(data, dtype=object)
+        return a[:, j:j + 1]
+    return sel
+
+
+def body_ensemble(ctx, family, N, kind, overwrite_at):
+    from collections import OrderedDict
+
+    from menelaus.ensemble import BatchEnsemble, SimpleMajorityElection, StreamingEnsemble
+
+    if family == "batch":
+        specs = [("KdqTreeBatch", {"dim": 1, "rows": 2}), ("NNDVI", {"dim": 1, "rows": 2}), ("KdqTreeBatch", {"dim": 2, "rows": 2})]
+        names = ["kdq-col0", "nndvi-col1", "kdq-all"]
+        selectors = {"kdq-col0": _select(0), "nndvi-col1": _select(1)}
+    else:
+        # long burn-ins: the scalar members (CUSUM keeps every observation in _stream) only store what they are given -
+        # their decisions are covered by the stand-alone jobs and would multiply the paths; the kdq member decides
+        specs = [("CUSUM", {"burn_in": 50, "target_given": True, "ite_max": True}),
+                 ("CUSUM", {"burn_in": 50, "target_given": True, "ite_max": True}),
+                 ("KdqTreeStreaming", {"window_size": 1, "dim": 2})]
+        names = ["cusum-col0", "cusum-col1", "kdq-all"]
+        selectors = {"cusum-col0": _select(0), "cusum-col1": _select(1)}
+    drivers = [DRIVERS[n](ctx, **c) for n, c in specs]
+    try:
+        for d in drivers:
+            d.__enter__()
+        A_m, T_m = OrderedDict(), OrderedDict()
+        for nm, d in zip(names, drivers):
+            A_m[nm], T_m[nm] = d.det, d.twin()
+        Ens = BatchEnsemble if family == "batch" else StreamingEnsemble
+        A = Ens(dict(A_m), SimpleMajorityElection(), dict(selectors))
+        T = Ens(dict(T_m), SimpleMajorityElection(), dict(selectors))
+        rows = 2 if family == "batch" else 1
+
+        def hand_over(i, call):
+            cells = [[ctx.real(f"x{i}_{r}_{j}") for j in range(2)] for r in range(rows)]
+            ca = Caller(ctx, kind, cells)
+            ct = ca.private_copy()
+            try:
+                if family == "batch":
+                    getattr(A, call)(ca.obj)
+                    getattr(T, call)(ct.obj)
+                else:
+                    A.update(ca.obj, None, None)
+                    T.update(ct.obj, None, None)
+            except ValueError as e:
+                if "Standard deviation is 0" in str(e):
+                    raise core_abort()
+                raise
+            ctx.prove(ca.unchanged(), f"caller-object-not-modified-by-{call}")
+            if overwrite_at == "all" or i in overwrite_at:
+                ca.overwrite(f"{i}")
+                ctx.witness("overwritten")
+            conds = [ctx.eq(1, 1)]
+            bad = []
+            for nm in names:
+                e, b = _state_equal(ctx, A_m[nm], T_m[nm], {"_check_epsilon", "_sim_bounds", "_get_critical_kld", "_compute_drift_threshold"})
+                conds.append(e)
+                bad += [f"{nm}.{k}" for k in b]
+            sa, st = A.drift_state, T.drift_state
+            conds.append(sa is st or sa == st)
+            ctx.prove(land(*conds), f"ensemble-after-{call}-equals-private-copy-run", detail={"attributes_differing_concretely": bad})
+
+        pos = 0
+        if family == "batch":
+            hand_over(0, "set_reference")
+            pos = 1
+        for i in range(pos, N):
+            hand_over(i, "update")
+        ctx.witness("compared")
+    finally:
+        for d in reversed(drivers):
+            d.__exit__(None, None, None)
+
+
+def core_abort():
+    from symx.core import PathAbort
+
+    return PathAbort()
+
+
+# --------------------------------------------------------------------------
 # injectors
 
 COLS = ["a", "b", "c"]
@@ -490,6 +584,12 @@ def jobs(tier):
                      ("ADWINAccuracy", {"max_buckets": 2})):
         add(det, 4 + x, cfg, ("1d", "list", "series"), det.lower())
     add("LinearFourRates", 2 + x, {"burn_in": 0}, ("1d", "list", "series"), "lfr")
+    for family, n in (("batch", 3 + x), ("stream", 4 + x)):
+        for kind in K2:
+            for ow in _positions(n, q):
+                out.append(Job(f"ensemble-{family}-{kind}-ow{'all' if ow == 'all' else ow[0]}", "checks.c15:body_ensemble",
+                               {"family": family, "N": n, "kind": kind, "overwrite_at": ow},
+                               expect=("overwritten", "compared"), opts={"validate": 1}))
     for name in ("FeatureShift", "FeatureSwap", "LabelSwap", "LabelJoin", "LabelProbability", "LabelDirichlet", "Brownian"):
         for container in ("c", "f", "view", "df"):
             out.append(Job(f"inj-{name}-{container}", "checks.c15:body_injector",
